@@ -28,6 +28,7 @@ func stdMeta() *Meta {
 			{"fnInt", "pk.FnInt"},
 			{"fnE", `"fx/pk".FnE`},
 			{"fnNil", "pk2.FnNil"},
+			{"fnTyped", "pk.FnTyped"},
 		},
 	}
 }
